@@ -396,6 +396,10 @@ type agg struct {
 	samples        int
 	deathsByKey    map[string]int64
 	unreproducible int64
+	viol           map[string]*pendingViolation
+	deathsAlone    int64 // deaths confirmed by re-running the history alone
+	deathsBySig    int64 // later deaths with an already confirmed signature (key + panic frame)
+	confirmedSig   map[string]int
 }
 
 func (a *agg) setHard(msg string) {
@@ -455,8 +459,50 @@ func (a *agg) record(rec histRecord) {
 		c.Sample(map[string]any{"history": rec.Hist, "schedules": rec.Schedules, "steps": rec.Steps, "distinct_observation_sequences": rec.DistinctCanon})
 	}
 	for _, v := range rec.Violations {
-		c.Violate(v.Key, v.What, v.Replay)
+		a.violate(v.Key, v.What, v.Replay, rec.Depth, rec.Idx)
 	}
+}
+
+type pendingViolation struct {
+	what       string
+	replay     any
+	depth, idx int
+	count      int
+}
+
+// violate buffers a violation; flush reports, per key, the occurrence with the
+// shortest history (lowest depth, then lowest index) so that the recorded example does
+// not depend on which shard happened to be first.
+func (a *agg) violate(key, what string, replay any, depth, idx int) {
+	if a.viol == nil {
+		a.viol = map[string]*pendingViolation{}
+	}
+	v := a.viol[key]
+	if v == nil {
+		a.viol[key] = &pendingViolation{what, replay, depth, idx, 1}
+		return
+	}
+	v.count++
+	if depth < v.depth || depth == v.depth && idx < v.idx {
+		v.what, v.replay, v.depth, v.idx = what, replay, depth, idx
+	}
+}
+
+func (a *agg) flush() {
+	a.mu.Lock()
+	defer a.mu.Unlock()
+	keys := make([]string, 0, len(a.viol))
+	for k := range a.viol {
+		keys = append(keys, k)
+	}
+	sort.Strings(keys)
+	for _, k := range keys {
+		v := a.viol[k]
+		for i := 0; i < v.count; i++ {
+			a.c.Violate(k, v.what, v.replay)
+		}
+	}
+	a.viol = nil
 }
 
 // runPhase explores every history of one depth on n processes.
@@ -487,49 +533,55 @@ func (a *agg) runPhase(bin string, ph phase, n int, deadline time.Time) {
 					a.c.Capped(fmt.Sprintf("shard %d of depth %d died before its first history (%s)", shard, ph.Depth, r.how))
 					return
 				}
-				// Confirmation: restart the shard AT the dying history, so that it is the first
-				// thing a fresh process runs (= alone). The first deaths of every key are
-				// additionally confirmed a second time in single-history mode.
-				cd := spawn(bin, "TestC23", cfgPath, shard, 0, r.idx, env, 120*time.Second, nil)
-				if cd.hardErr != "" {
-					a.setHard(cd.hardErr)
-					return
-				}
-				confirmed := !cd.done
-				key, site, harness := "", "", false
-				if confirmed {
-					key, site, harness = deathKey(cd.stderr, r.ann.Last, cd.killed)
-					a.mu.Lock()
-					seenBefore := a.deathsByKey[key]
-					a.mu.Unlock()
-					if seenBefore < 3 {
-						cd2 := spawn(bin, "TestC23", cfgPath, shard, 0, r.idx, env, 120*time.Second, nil)
-						k2, _, _ := deathKey(cd2.stderr, r.ann.Last, cd2.killed)
-						confirmed = !cd2.done && k2 == key
+				// A death is attributed to the announced history (every history runs in bubbles
+				// that are completely drained before the next one starts, so nothing leaks from
+				// one history into the next). The first three deaths of every signature (key +
+				// panicking frame) are confirmed by re-running the history alone, twice; later
+				// deaths with a confirmed signature are accepted as they are.
+				key, site, harness := deathKey(r.stderr, r.ann.Last, r.killed)
+				a.mu.Lock()
+				needConfirm := a.confirmedSig[key+" "+site] < 3
+				a.mu.Unlock()
+				confirmed, how, excerpt := true, r.how, panicExcerpt(r.stderr)
+				if needConfirm {
+					for i := 0; i < 2 && confirmed; i++ {
+						cd := spawn(bin, "TestC23", cfgPath, shard, 0, r.idx, env, 120*time.Second, nil)
+						if cd.hardErr != "" {
+							a.setHard(cd.hardErr)
+							return
+						}
+						k2, s2, _ := deathKey(cd.stderr, r.ann.Last, cd.killed)
+						confirmed = !cd.done && k2 == key && s2 == site
 					}
 				}
 				if confirmed {
 					if harness {
-						a.setHard("the harness itself panicked in " + site + ":\n" + panicExcerpt(cd.stderr))
+						a.setHard("the harness itself panicked in " + site + ":\n" + excerpt)
 						return
 					}
 					rp, _ := json.Marshal(map[string]any{"kind": "death", "history": r.ann.History, "maxDev": ph.MaxDev})
 					a.mu.Lock()
 					a.deaths++
 					a.deathsByKey[key]++
+					if needConfirm {
+						a.confirmedSig[key+" "+site]++
+						a.deathsAlone++
+					} else {
+						a.deathsBySig++
+					}
 					newDead = append(newDead, r.ann.Hist)
 					a.c.Eval(1)
 					a.c.Outcome("server-died", 1)
 					a.byDepth[strconv.Itoa(ph.Depth)]++
+					a.violate(key, fmt.Sprintf("the language server process died while handling history [%s] (%s) %s\n%s",
+						strings.Join(r.ann.Hist, " "), how, site, excerpt), json.RawMessage(rp), ph.Depth, r.idx)
 					a.mu.Unlock()
-					a.c.Violate(key, fmt.Sprintf("the language server process died while handling history [%s] (%s) %s\n%s",
-						strings.Join(r.ann.Hist, " "), cd.how, site, panicExcerpt(cd.stderr)), json.RawMessage(rp))
 				} else {
-					fmt.Fprintf(os.Stderr, "C23: shard %d: death at history %d [%s] not reproducible alone: %s\n%s\n", shard, r.idx, strings.Join(r.ann.Hist, " "), r.how, panicExcerpt(r.stderr))
+					fmt.Fprintf(os.Stderr, "C23: shard %d: death at history %d [%s] not reproducible alone: %s\n%s\n", shard, r.idx, strings.Join(r.ann.Hist, " "), r.how, excerpt)
 					a.mu.Lock()
 					a.unreproducible++
 					a.mu.Unlock()
-					// it ran fine alone: take its records from a single-history run
+					// take its records from a single-history run
 					spawn(bin, "TestC23", cfgPath, shard, 0, r.idx, env, 120*time.Second, a.record)
 				}
 				start = r.idx + 1
@@ -699,13 +751,13 @@ func run(c *core.Ctx) {
 	var raceDepth, raceReps int
 	var raceReserve time.Duration
 	if c.Quick() {
-		phases = []phase{{1, 2, 2}, {2, 2, 2}, {3, 1, 2}}
-		raceDepth, raceReps, raceReserve = 2, 10, 25*time.Second
+		phases = []phase{{1, 2, 2}, {2, 2, 2}, {3, 1, 1}}
+		raceDepth, raceReps, raceReserve = 2, 5, 25*time.Second
 	} else {
 		phases = []phase{{1, 2, 3}, {2, 2, 3}, {3, 2, 1}, {3, 1, 2}, {4, 1, 1}}
 		raceDepth, raceReps, raceReserve = 2, 100, 4*time.Minute
 	}
-	a := &agg{c: c, byDepth: map[string]int64{}, deathsByKey: map[string]int64{}}
+	a := &agg{c: c, byDepth: map[string]int64{}, deathsByKey: map[string]int64{}, confirmedSig: map[string]int{}}
 	var plan []map[string]int
 	for _, ph := range phases {
 		plan = append(plan, map[string]int{"depth": ph.Depth, "documents": ph.Docs, "max_deviations": ph.MaxDev})
@@ -731,7 +783,9 @@ func run(c *core.Ctx) {
 	c.Set("histories_skipped_as_extensions_of_a_dead_history", a.skipped)
 	c.Set("schedule_tree_nodes", a.nodes)
 	c.Set("histories_with_incomplete_schedule_search", a.incomplete)
-	c.Set("server_deaths", map[string]any{"total": a.deaths, "by_key": a.deathsByKey, "unreproducible": a.unreproducible})
+	c.Set("server_deaths", map[string]any{"total": a.deaths, "by_key": a.deathsByKey, "confirmed_alone_twice": a.deathsAlone,
+		"accepted_by_confirmed_signature": a.deathsBySig, "unreproducible": a.unreproducible})
+	a.flush()
 	if a.incomplete > 0 {
 		c.Capped(fmt.Sprintf("%d histories: schedule search cut by the budget", a.incomplete))
 	}
